@@ -232,6 +232,27 @@ VP_BUILTIN(F06_pbf_string_with_embedded_nul) {
     }
 }
 
+VP_BUILTIN(F35_o5m_bounding_box_with_undefined_or_reversed_corner) {
+    // bounding box dataset (0xdb) whose corners are the "undefined" marker, reversed, out of range or beyond 32 bits
+    auto zz = [](std::string& o, int64_t v) { enc::pb::varint(o, enc::pb::zz(v)); };
+    static const int64_t vals[] = {2147483647LL, -2147483648LL, 0, 5, -5, 1800000001LL, 4294967296LL + 7, 9223372036854775807LL};
+    for (int64_t a : vals)
+        for (int64_t b : vals)
+            for (int64_t c : {3LL, 2147483647LL, -1800000000LL}) {
+                std::string f("\xff\xe0\x04o5m2", 7);
+                std::string body;
+                zz(body, a);
+                zz(body, b);
+                zz(body, c);
+                zz(body, 4);
+                f += static_cast<char>(0xdb);
+                enc::pb::varint(f, body.size());
+                f += body;
+                f += static_cast<char>(0xfe);
+                check(f, "o5m", "o5m bounding box " + std::to_string(a) + "," + std::to_string(b) + "," + std::to_string(c) + ",4");
+            }
+}
+
 VP_BUILTIN(F07_user_name_of_65535_bytes_or_more) {
     for (size_t n : {65533, 65534, 65535, 65536, 70000, 131071}) {
         const std::string user(n, 'a');
